@@ -122,6 +122,12 @@ fn inprogress(bytes: &[u8], m: &ModelGame) -> Result<(), Fail> {
 					}
 				}
 				closed = now;
+			} else if closed > 0 {
+				// while the next frame is being parsed, the last completed frame must keep matching its columns
+				let cur = view_mutable(state.frames());
+				if let Err(e) = row_matches(&state.frame(closed - 1), &cur, closed - 1, version) {
+					return Ok(Err(format!("in-progress row {} re-read after event {:#x} of the next frame: {}", closed - 1, code, e)));
+				}
 			}
 			if code == spec::EV_GAME_END {
 				break;
